@@ -60,28 +60,28 @@ theorem stored_iff (t : Tree) (key : Nat) :
   · rintro ⟨p, v, p1, p2, p3⟩
     exact ⟨(key, v), (mem_listRange t _ _ _).2 ⟨p, p1, by omega, p3⟩, rfl⟩
 
-theorem insertSpec_nonempty (hr : RedistSpec) (hb : BiggerSpec) (hg : GoDownSpec)
-    (t : Tree) (key : Nat) (value : Int) (hinv : t.Inv) (hsize : 1 ≤ t.size) :
-    ∃ t' it, insert t key value = some (t', it) ∧ t'.Inv ∧
+/-- **`insert_precise(key, data, itr)`** from any used node `(i, o)` that holds `key` when `key` is
+    stored and otherwise is the node next to which `key` belongs, with a free child (or a leaf)
+    on the side of `key` -/
+theorem insertPrecise_slot (hr : RedistSpec) (hb : BiggerSpec) (hg : GoDownSpec)
+    (t : Tree) (key : Nat) (value : Int) (i o : Nat) (hinv : t.Inv) (hsize : 1 ≤ t.size)
+    (g1 : t.IsNode i o) (g2 : t.isUnused i = false)
+    (g5 : (∃ p, 1 ≤ p ∧ p ≤ t.rs ∧ ∃ v, t.cell p = some (key, v)) → t.keyAt i = key)
+    (g6 : t.keyAt i ≠ key → t.Brackets i i key ∧
+      ((⟨i, o⟩ : TIt).isLeaf = false →
+        t.isUnused (if key < t.keyAt i then (⟨i, o⟩ : TIt).getLeftChild
+          else (⟨i, o⟩ : TIt).getRightChild).i = true)) :
+    ∃ t' it, insertPrecise t key value ⟨i, o⟩ = some (t', it) ∧ (t'.Inv ∧
       t'.toList = SMap.set t.toList key value ∧ t'.cell it.i = some (key, value) ∧
       (t'.size, t'.rs) =
-        (if SMap.stored t.toList key then (t.size, t.rs) else afterInsert t.size t.rs) := by
+        (if SMap.stored t.toList key then (t.size, t.rs) else afterInsert t.size t.rs)) ∧
+      1 ≤ it.i ∧ it.i ≤ t'.rs := by
   obtain ⟨hs, hcnt, hsorted, hup, hdens⟩ := hinv
   have hne : t.size ≠ 0 := by omega
   have hodd := hs.rs_odd
   have hszle : t.size ≤ t.rs := by
     have := countRange_le t 1 (t.rs + 1); omega
-  have e0 : insert t key value = insertPrecise t key value (t.goDownSearchingKey key t.getRoot) := by
-    simp [insert, hne]
   have hru := root_used hs hup (by omega)
-  obtain ⟨g1, g2, g3, g4, g5, g6⟩ :=
-    hg t key _ _ hs hsorted hup (IsNode.root hs) hru (brackets_root t hs key)
-  have eroot : (⟨t.rs / 2 + 1, t.rs / 2 + 1⟩ : TIt) = t.getRoot := rfl
-  rw [eroot] at g1 g2 g3 g4 g5 g6
-  rw [e0]
-  generalize t.goDownSearchingKey key t.getRoot = it at g1 g2 g3 g4 g5 g6
-  obtain ⟨i, o⟩ := it
-  simp only at g1 g2 g3 g4 g5 g6
   have hbi := g1.bounds hs
   obtain ⟨kv, hkv⟩ := (isUnused_false_iff t i).mp g2
   have hka := keyAt_of_cell hkv
@@ -93,7 +93,8 @@ theorem insertSpec_nonempty (hr : RedistSpec) (hb : BiggerSpec) (hg : GoDownSpec
     obtain ⟨a1, a2, a3, a4⟩ := replace_at_used t i key kv.2 value hs hsorted (by omega) (by omega) hkv'
     have hst : SMap.stored t.toList key = true :=
       (stored_iff t key).2 ⟨i, kv.2, by omega, by omega, hkv'⟩
-    refine ⟨_, _, e1, ⟨a1, ?_, ?_, ?_, hdens⟩, a3, a4, by rw [hst]; rfl⟩
+    refine ⟨_, _, e1, ⟨⟨a1, ?_, ?_, ?_, hdens⟩, a3, a4, by rw [hst]; rfl⟩, by show 1 ≤ i; omega,
+      by show i ≤ t.rs; omega⟩
     · show (t.setCell i (some (key, value))).countRange 1 (t.rs + 1) = t.size
       rw [← hcnt]
       unfold Tree.countRange
@@ -111,7 +112,7 @@ theorem insertSpec_nonempty (hr : RedistSpec) (hb : BiggerSpec) (hg : GoDownSpec
       | false => rfl
       | true =>
         obtain ⟨p, v, p1, p2, p3⟩ := (stored_iff t key).1 hx
-        exact absurd (g5 ⟨p, by omega, by omega, v, p3⟩) hk
+        exact absurd (g5 ⟨p, p1, p2, v, p3⟩) hk
     obtain ⟨g6a, g6b⟩ := g6 hk
     have e1 : insertPrecise t key value ⟨i, o⟩ = insertPreciseAux t key value ⟨i, o⟩ := by
       simp [insertPrecise, hk]
@@ -146,9 +147,9 @@ theorem insertSpec_nonempty (hr : RedistSpec) (hb : BiggerSpec) (hg : GoDownSpec
             · exact h7
           exact insertTail_leaf hr hg t key value i o hs hsorted hup hcnt g1 g2 hk g6a hl h7
             (root_ok_insert t.maxDepth t.size t.rs h7 hdens hgr)
-      obtain ⟨t', it', q1, q2, q3, q4, q5, q6, q7, q8⟩ := hpost
-      refine ⟨t', it', q1, ⟨q2, by rw [q3, q7, hcnt], ?_, q5, by rw [q7, q8]; exact hdens'⟩, q4, q6,
-        by rw [q7, q8]; rfl⟩
+      obtain ⟨t', it', q1, q2, q3, q4, q5, q6, q7, q8, q9, q10⟩ := hpost
+      refine ⟨t', it', q1, ⟨⟨q2, by rw [q3, q7, hcnt], ?_, q5, by rw [q7, q8]; exact hdens'⟩, q4, q6,
+        by rw [q7, q8]; rfl⟩, q9, q10⟩
       rw [q4]; exact SMap.sorted_set _ _ _ hsorted
     | true =>
       rw [insertPreciseAux_grown hgr]
@@ -187,10 +188,59 @@ theorem insertSpec_nonempty (hr : RedistSpec) (hb : BiggerSpec) (hg : GoDownSpec
             (by omega)
             (by rw [b4, b2]
                 exact root_ok_insert_grown t1.maxDepth t.size t.rs hodd.2 hszle hgr)
-      obtain ⟨t', it', q1, q2, q3, q4, q5, q6, q7, q8⟩ := hpost
-      refine ⟨t', it', q1, ⟨q2, by rw [q3, q7, hcnt1], ?_, q5, by rw [q7, q8, b4, b2]; exact hdens'⟩,
-        by rw [q4, b7], q6, by rw [q7, q8, b4, b2]; rfl⟩
+      obtain ⟨t', it', q1, q2, q3, q4, q5, q6, q7, q8, q9, q10⟩ := hpost
+      refine ⟨t', it', q1, ⟨⟨q2, by rw [q3, q7, hcnt1], ?_, q5, by rw [q7, q8, b4, b2]; exact hdens'⟩,
+        by rw [q4, b7], q6, by rw [q7, q8, b4, b2]; rfl⟩, q9, q10⟩
       rw [q4]; exact SMap.sorted_set _ _ _ hsorted1
+
+theorem insertPrecise_spec (hr : RedistSpec) (hb : BiggerSpec) (hg : GoDownSpec)
+    (t : Tree) (key : Nat) (value : Int) (i o : Nat) (hinv : t.Inv) (hsize : 1 ≤ t.size)
+    (g1 : t.IsNode i o) (g2 : t.isUnused i = false)
+    (g5 : (∃ p, 1 ≤ p ∧ p ≤ t.rs ∧ ∃ v, t.cell p = some (key, v)) → t.keyAt i = key)
+    (g6 : t.keyAt i ≠ key → t.Brackets i i key ∧
+      ((⟨i, o⟩ : TIt).isLeaf = false →
+        t.isUnused (if key < t.keyAt i then (⟨i, o⟩ : TIt).getLeftChild
+          else (⟨i, o⟩ : TIt).getRightChild).i = true)) :
+    ∃ t' it, insertPrecise t key value ⟨i, o⟩ = some (t', it) ∧ t'.Inv ∧
+      t'.toList = SMap.set t.toList key value ∧ t'.cell it.i = some (key, value) ∧
+      (t'.size, t'.rs) =
+        (if SMap.stored t.toList key then (t.size, t.rs) else afterInsert t.size t.rs) := by
+  obtain ⟨t', it, r1, r2, _⟩ := insertPrecise_slot hr hb hg t key value i o hinv hsize g1 g2 g5 g6
+  exact ⟨t', it, r1, r2⟩
+
+/-- `insert` on a non-empty tree, with the slot bound of the returned iterator -/
+theorem insert_slot (hr : RedistSpec) (hb : BiggerSpec) (hg : GoDownSpec)
+    (t : Tree) (key : Nat) (value : Int) (hinv : t.Inv) (hsize : 1 ≤ t.size) :
+    ∃ t' it, insert t key value = some (t', it) ∧ (t'.Inv ∧
+      t'.toList = SMap.set t.toList key value ∧ t'.cell it.i = some (key, value) ∧
+      (t'.size, t'.rs) =
+        (if SMap.stored t.toList key then (t.size, t.rs) else afterInsert t.size t.rs)) ∧
+      1 ≤ it.i ∧ it.i ≤ t'.rs := by
+  have hs := hinv.shape
+  have hne : t.size ≠ 0 := by omega
+  have hodd := hs.rs_odd
+  have e0 : insert t key value = insertPrecise t key value (t.goDownSearchingKey key t.getRoot) := by
+    simp [insert, hne]
+  have hru := root_used hs hinv.upClosed (by have := hinv.count; omega)
+  obtain ⟨g1, g2, g3, g4, g5, g6⟩ :=
+    hg t key _ _ hs hinv.sorted hinv.upClosed (IsNode.root hs) hru (brackets_root t hs key)
+  have eroot : (⟨t.rs / 2 + 1, t.rs / 2 + 1⟩ : TIt) = t.getRoot := rfl
+  rw [eroot] at g1 g2 g3 g4 g5 g6
+  rw [e0]
+  generalize t.goDownSearchingKey key t.getRoot = it at g1 g2 g3 g4 g5 g6
+  obtain ⟨i, o⟩ := it
+  simp only at g1 g2 g3 g4 g5 g6
+  exact insertPrecise_slot hr hb hg t key value i o hinv hsize g1 g2
+    (fun ⟨p, p1, p2, v, p3⟩ => g5 ⟨p, by omega, by omega, v, p3⟩) g6
+
+theorem insertSpec_nonempty (hr : RedistSpec) (hb : BiggerSpec) (hg : GoDownSpec)
+    (t : Tree) (key : Nat) (value : Int) (hinv : t.Inv) (hsize : 1 ≤ t.size) :
+    ∃ t' it, insert t key value = some (t', it) ∧ t'.Inv ∧
+      t'.toList = SMap.set t.toList key value ∧ t'.cell it.i = some (key, value) ∧
+      (t'.size, t'.rs) =
+        (if SMap.stored t.toList key then (t.size, t.rs) else afterInsert t.size t.rs) := by
+  obtain ⟨t', it, r1, r2, _⟩ := insert_slot hr hb hg t key value hinv hsize
+  exact ⟨t', it, r1, r2⟩
 
 /-- **`CO_Tree::insert(key, data)`** (`InsertSpec` of `RebSpec.lean`) -/
 theorem insertSpec_of (hr : RedistSpec) (hb : BiggerSpec) (hg : GoDownSpec) : InsertSpec := by
